@@ -391,6 +391,22 @@ theorem listener_sees_segment {σ π Out : Type} (M : Machine σ π Out) (b : Bo
     (∀ x ∈ s.retired, ∃ n m, n + m ≤ s.events.length ∧ x.2 = (s.events.drop n).take m) :=
   linv_run M ops (State.new b) (linv_new b)
 
+/-- The step-wise form (rules out a model that would tell a listener only a late suffix): every operation other than
+    `add_listener` / `remove_listener` appends one batch of events to the log and tells EXACTLY that batch to EVERY
+    registered listener; `add_listener` registers an empty log under the next id and `remove_listener` only removes
+    an entry - neither fires an event nor touches another listener's log. -/
+theorem listeners_told_each_batch {σ π Out : Type} (M : Machine σ π Out) (s : State σ Out) (op : MultiRecv.Op π) :
+    (∃ evs, (MultiRecv.step M s op).1.events = s.events ++ evs ∧
+        (MultiRecv.step M s op).1.listeners = s.listeners.map (fun e => (e.1, e.2 ++ evs))) ∨
+    (op = .addListener ∧ (MultiRecv.step M s op).1.events = s.events ∧
+        (MultiRecv.step M s op).1.listeners = AL.set s.listeners s.listenersId []) ∨
+    (∃ id, op = .removeListener id ∧ (MultiRecv.step M s op).1.events = s.events ∧
+        (MultiRecv.step M s op).1.listeners = AL.del s.listeners id) := by
+  rcases step_shape M s op with ⟨evs, he, hl, _, _⟩ | h | ⟨id, h⟩
+  · exact Or.inl ⟨evs, he, hl⟩
+  · subst h; exact Or.inr (Or.inl ⟨rfl, rfl, rfl⟩)
+  · subst h; exact Or.inr (Or.inr ⟨id, rfl, rfl, rfl⟩)
+
 /-- "Per listener registered throughout": a listener added before anything else (it gets id 0) and never removed
     has been told the complete log, so `listener_alternation`, `listener_shape` and
     `listener_all_closed_after_drop` are statements about what THAT listener saw. -/
